@@ -103,12 +103,6 @@ func ttlMismatch(t *fakeconn.Table, c ctrlrun.Config) (kind, what string) {
 
 type finding struct{ Class, What string }
 
-type group struct {
-	Ord    int
-	Name   string // marker name
-	Tables []string
-}
-
 type stepResult struct {
 	st       *fakeconn.State
 	proc     *fakeconn.Proc
@@ -118,7 +112,7 @@ type stepResult struct {
 	altered  map[string]bool // tables a MODIFY TTL was issued for (applied or not)
 	alteredP map[string]bool // tables a MODIFY SETTING storage_policy was issued for
 	alters   int
-	alterOrd map[int]bool // ordinals of the marker groups that issued an ALTER
+	alterOwn map[string]bool // fingerprints of the markers whose groups issued an ALTER (see owners)
 }
 
 // markerNames maps fingerprint → marker name (filled from the INSERTs seen; the fingerprint function is the
@@ -137,38 +131,37 @@ func isInjected(err error) bool {
 func (x *explorer) step(st0 *fakeconn.State, cfg ctrlrun.Config, plan []fakeconn.Fault, interrupted bool) *stepResult {
 	st := st0.Clone()
 	proc := fakeconn.NewProc(st, plan...)
-	r := &stepResult{st: st, proc: proc, altered: map[string]bool{}, alteredP: map[string]bool{}, alterOrd: map[int]bool{}}
-	ord := -1
+	r := &stepResult{st: st, proc: proc, altered: map[string]bool{}, alteredP: map[string]bool{}, alterOwn: map[string]bool{}}
 	proc.OnApplied = func(e *fakeconn.Entry) {
-		if e.Stmt.Kind == "select_setting" {
-			ord++ // the group ordinal advances at every marker lookup
+		// O2: at the instant a marker row of type `rotate` is written with a value, every table the marker vouches
+		// for (see groups.go) carries that value.
+		t, ok := touchOf(e)
+		if !ok || !t.write {
 			return
 		}
-		if e.Stmt.Kind != "insert" || e.Stmt.Name.Name != "settings" {
+		tp, _ := e.Stmt.InsertValue("type")
+		nm, _ := e.Stmt.InsertValue("name")
+		val, _ := e.Stmt.InsertValue("value")
+		if tp.Text != "rotate" {
 			return
 		}
-		vals := map[string]string{}
-		for i, c := range e.Stmt.InsCols {
-			vals[c] = e.Stmt.InsVals[i].Text
-		}
-		if vals["type"] != "rotate" {
-			return
-		}
-		markerNames.Store(vals["fingerprint"], vals["name"])
-		v := vals["value"]
-		if v == "" || x.refGroups == nil || ord < 0 || ord >= len(x.refGroups) {
+		markerNames.Store(t.fp, nm.Text)
+		v := val.Text
+		if v == "" || x.mem == nil {
 			return // an empty value claims nothing
 		}
-		g := x.refGroups[ord]
 		ttl, terr := fakeconn.ParseTTLText(v)
-		isTTL := terr == nil && strings.Contains(v, "toInterval")
-		for _, tn := range g.Tables {
+		kind := "policy"
+		if terr == nil && len(ttl) > 0 {
+			kind = "ttl"
+		}
+		for _, tn := range x.mem.members[gkey{nm.Text, kind}] {
 			t := st.Table(dbName, tn)
 			if t == nil {
 				continue
 			}
 			ok := false
-			if isTTL {
+			if kind == "ttl" {
 				ok = len(ttl) == len(t.TTL)
 				for i := 0; ok && i < len(ttl); i++ {
 					ok = ttl[i] == t.TTL[i]
@@ -177,36 +170,27 @@ func (x *explorer) step(st0 *fakeconn.State, cfg ctrlrun.Config, plan []fakeconn
 				ok = t.StoragePolicy() == v
 			}
 			if !ok {
-				r.findings = append(r.findings, finding{"marker_written_before_alters:" + vals["name"],
+				r.findings = append(r.findings, finding{"marker_written_before_alters:" + nm.Text,
 					fmt.Sprintf("marker (rotate,%s)=%q written at statement %d while table %s of its group does not carry that value yet (TTL %v, policy %s)",
-						vals["name"], v, e.Index, tn, t.TTL, t.StoragePolicy())})
+						nm.Text, v, e.Index, tn, t.TTL, t.StoragePolicy())})
 				return
 			}
 		}
 	}
 	r.err, r.panicked = ctrlrun.Rotate(proc, cfg)
-	o := -1
-	for _, e := range proc.Log {
-		if e.Stmt == nil {
+	own := owners(proc.Log)
+	for i, e := range proc.Log {
+		if e.Stmt == nil || e.Stmt.Kind != "alter" {
 			continue
 		}
-		if e.Stmt.Kind == "select_setting" {
-			o++
+		r.alters++
+		switch alterKind(e.Stmt) {
+		case "ttl":
+			r.altered[e.Target] = true
+		case "policy":
+			r.alteredP[e.Target] = true
 		}
-		if e.Stmt.Kind == "alter" {
-			r.alters++
-			for _, c := range e.Stmt.Cmds {
-				if c.Op == "MODIFY_TTL" {
-					r.altered[e.Stmt.Name.Name] = true
-				}
-				for _, kv := range c.Settings {
-					if kv[0] == "storage_policy" {
-						r.alteredP[e.Stmt.Name.Name] = true
-					}
-				}
-			}
-			r.alterOrd[o] = true
-		}
+		r.alterOwn[own[i]] = true
 	}
 	if proc.HarnessErr != nil {
 		ev.Fatal("fake connection: %v", proc.HarnessErr)
@@ -230,7 +214,7 @@ func (x *explorer) successOracle(r *stepResult, cfg ctrlrun.Config, interrupted 
 		if !isDataTable(t) {
 			continue
 		}
-		rotated := x.rotated[tn]
+		rotated := x.mem != nil && x.mem.rotated[tn]
 		if kind, what := ttlMismatch(t, cfg); kind != "" {
 			switch {
 			case !rotated:
@@ -296,8 +280,7 @@ type explorer struct {
 	maxDepth   int
 	maxFaults  int
 	workers    int
-	refGroups  []group
-	rotated    map[string]bool
+	mem        *membership // which tables each marker vouches for (groups.go)
 	nodes      []*node
 	index      map[skey]int
 	mu         sync.Mutex
@@ -382,65 +365,19 @@ func (x *explorer) initialState() *fakeconn.State {
 	return st
 }
 
-// reference groups: the g-th marker lookup of a run guards the tables altered before the next lookup, observed on
-// a run that has everything to do (no markers, storage policy configured).
+// deriveGroups builds the marker → tables relation from a reference run that has everything to do (no markers, a
+// storage policy configured) and from the call arguments of Rotate in the tree under test.
 func (x *explorer) deriveGroups(st0 *fakeconn.State) {
 	cfg := x.baseConfig()
 	cfg.StoragePolicy, cfg.Name = "p1", "reference"
 	st := st0.Clone()
 	p := fakeconn.NewProc(st)
-	if err, _ := ctrlrun.Rotate(p, cfg); err != nil || p.HarnessErr != nil {
-		// the uninterrupted reference run failing is reported by the exploration itself; groups stay empty
-		x.refGroups = nil
-		x.rotated = map[string]bool{}
-		return
+	err, _ := ctrlrun.Rotate(p, cfg)
+	if p.HarnessErr != nil {
+		ev.Fatal("fake connection (reference run): %v", p.HarnessErr)
 	}
-	x.rotated = map[string]bool{}
-	var cur *group
-	var keys []string
-	for _, e := range p.Log {
-		if e.Stmt == nil {
-			continue
-		}
-		switch e.Stmt.Kind {
-		case "select_setting":
-			x.refGroups = append(x.refGroups, group{Ord: len(x.refGroups)})
-			cur = &x.refGroups[len(x.refGroups)-1]
-			keys = append(keys, e.Stmt.WhereVal)
-		case "alter":
-			x.rotated[e.Stmt.Name.Name] = true
-			if cur != nil {
-				seen := false
-				for _, t := range cur.Tables {
-					seen = seen || t == e.Stmt.Name.Name
-				}
-				if !seen {
-					cur.Tables = append(cur.Tables, e.Stmt.Name.Name)
-				}
-			}
-		case "insert":
-			if cur != nil && e.Stmt.Name.Name == "settings" {
-				for i, c := range e.Stmt.InsCols {
-					if c == "name" {
-						cur.Name = e.Stmt.InsVals[i].Text
-					}
-				}
-			}
-		}
-	}
-	_ = keys
-}
-
-func (x *explorer) sharedName(ord int) bool {
-	if ord < 0 || ord >= len(x.refGroups) {
-		return false
-	}
-	for _, g := range x.refGroups {
-		if g.Ord != ord && g.Name == x.refGroups[ord].Name && g.Name != "" {
-			return true
-		}
-	}
-	return false
+	_ = err // a failing uninterrupted run is reported by the exploration itself; what was observed is still used
+	x.mem = buildMembership(p.Log)
 }
 
 type expansion struct {
@@ -461,11 +398,13 @@ func stmtKind(e *fakeconn.Entry) string {
 	if e.Stmt == nil {
 		return "unparsed"
 	}
-	switch e.Stmt.Kind {
-	case "insert":
-		return "marker_insert"
-	case "select_setting":
+	if t, ok := touchOf(e); ok {
+		if t.write {
+			return "marker_insert"
+		}
 		return "marker_lookup"
+	}
+	switch e.Stmt.Kind {
 	case "alter":
 		return "alter:" + e.Stmt.Cmds[0].Op
 	}
@@ -509,22 +448,8 @@ func (x *explorer) expand(n *node, cfgs []ctrlrun.Config) *expansion {
 			if again.err != nil {
 				add(rr, "rerun", []finding{x.classifyFailure("rerun_fails", again)})
 			} else if again.alters > 0 {
-				var ords []int
-				for o := range again.alterOrd {
-					ords = append(ords, o)
-				}
-				sort.Ints(ords)
-				for _, o := range ords {
-					name := "?"
-					if o >= 0 && o < len(x.refGroups) {
-						name = x.refGroups[o].Name
-					}
-					cl := "rerun_issues_alter:" + name
-					if x.sharedName(o) {
-						cl = "marker_key_collision:" + name
-					}
-					add(rr, "rerun", []finding{{cl, fmt.Sprintf("immediate re-run with unchanged configuration issues ALTER statements again for marker group #%d (rotate,%s) — %d ALTER(s) in total",
-						o, name, again.alters)}})
+				for _, f := range x.rerunFindings(again) {
+					add(rr, "rerun", []finding{f})
 				}
 			}
 		}
@@ -573,6 +498,29 @@ func (x *explorer) expand(n *node, cfgs []ctrlrun.Config) *expansion {
 	return ex
 }
 
+// rerunFindings explains the ALTERs of a re-run with unchanged configuration: by the marker whose group issued them.
+func (x *explorer) rerunFindings(again *stepResult) []finding {
+	var fps []string
+	for fp := range again.alterOwn {
+		fps = append(fps, fp)
+	}
+	sort.Strings(fps)
+	var out []finding
+	for _, fp := range fps {
+		name := "?"
+		if v, ok := markerNames.Load(fp); ok {
+			name = v.(string)
+		}
+		cl := "rerun_issues_alter:" + name
+		if x.mem != nil && x.mem.shared(name) {
+			cl = "marker_key_collision:" + name
+		}
+		out = append(out, finding{cl, fmt.Sprintf("immediate re-run with unchanged configuration issues ALTER statements again for the group of marker (rotate,%s) — %d ALTER(s) in total",
+			name, again.alters)})
+	}
+	return out
+}
+
 func (x *explorer) classifyFailure(prefix string, r *stepResult) finding {
 	var failing *fakeconn.Entry
 	for _, e := range r.proc.Log {
@@ -604,11 +552,8 @@ func (x *explorer) explore() {
 	x.nodes = append(x.nodes, &node{id: 0, st: init, parent: -1})
 	x.index[stateKey(init, 0)] = 0
 	r.Distinct(x.label() + "/init")
-	var gs []string
-	for _, g := range x.refGroups {
-		gs = append(gs, fmt.Sprintf("#%d %s%v", g.Ord, g.Name, g.Tables))
-	}
-	r.Sample(map[string]any{"exploration": x.label(), "marker_groups_observed": gs, "configurations": len(x.configs)})
+	r.Sample(map[string]any{"exploration": x.label(), "marker_groups": x.mem.describe(), "call_argument_cross_check": x.mem.astNote,
+		"configurations": len(x.configs)})
 	frontier := []int{0}
 	lastLevelStates := 0
 	for depth := 0; depth < x.maxDepth && len(frontier) > 0; depth++ {
@@ -814,16 +759,8 @@ func replay(r *ev.Run) {
 			r.Violate(f.Class, fmt.Sprintf("replay run %d: %s", i+1, f.What), doc.Replay)
 		}
 		if i == len(doc.Replay.Runs)-1 && doc.Replay.Then == "rerun" && res.alters > 0 {
-			for o := range res.alterOrd {
-				name := "?"
-				if o >= 0 && o < len(x.refGroups) {
-					name = x.refGroups[o].Name
-				}
-				cl := "rerun_issues_alter:" + name
-				if x.sharedName(o) {
-					cl = "marker_key_collision:" + name
-				}
-				r.Violate(cl, fmt.Sprintf("replay run %d (re-run with unchanged configuration) issues %d ALTER(s)", i+1, res.alters), doc.Replay)
+			for _, f := range x.rerunFindings(res) {
+				r.Violate(f.Class, fmt.Sprintf("replay run %d: %s", i+1, f.What), doc.Replay)
 			}
 		}
 		if res.err != nil && len(s.Faults) == 0 {
